@@ -1138,6 +1138,89 @@ pub fn run_conc(s: &mut Src, ctx: &mut Ctx) -> Verdict {
     Verdict::Pass
 }
 
+/// Part `many`: larger knowledge bases (21-60 rules, few salience values). The statement's listing clause is
+/// universal; small bases cannot see an unstable sort (slices of <= 20 elements are sorted stably by std's
+/// unstable sort), so this part adds and removes rules in a base that is larger than that and compares the
+/// listing, the lookups and the index-based order with a plain model (stable sort of the insertion list).
+pub fn run_many(s: &mut Src, ctx: &mut Ctx) -> Verdict {
+    let n = 21 + s.below(40);
+    let nsal = 1 + s.below(3);
+    // (name index, salience); names are unique, a few removals and re-adds are interleaved
+    let mut ops: Vec<(bool, usize, i32)> = Vec::new(); // (add?, name, salience)
+    let mut next_name = 0usize;
+    let mut live: Vec<usize> = Vec::new();
+    for _ in 0..n {
+        if !live.is_empty() && s.chance(1, 10) {
+            let k = s.below(live.len());
+            ops.push((false, live.remove(k), 0));
+        } else {
+            let sal = (s.below(nsal) as i32) * 5 - 5;
+            ops.push((true, next_name, sal));
+            live.push(next_name);
+            next_name += 1;
+        }
+    }
+    if probe_only() {
+        return Verdict::Pass;
+    }
+    ctx.describe(|| format!("many-rules ops (add?, name, salience): {:?}", ops));
+    let kb = KnowledgeBase::new("many");
+    let mut model: Vec<(usize, i32)> = Vec::new(); // insertion order
+    let mut saw_big_tie_add = false;
+    for (i, (add, name, sal)) in ops.iter().enumerate() {
+        let rname = format!("m{}", name);
+        if *add {
+            let cond = ConditionGroup::single(Condition::new("F.x".to_string(), Operator::Equal, Value::Boolean(true)));
+            let rule = Rule::new(rname.clone(), cond, vec![]).with_salience(*sal);
+            if kb.add_rule(rule).is_err() {
+                return Verdict::fail("many:add-rejected", format!("op {}: add_rule({}) of a fresh name returned Err", i, rname));
+            }
+            if model.len() >= 20 && model.iter().any(|(_, s2)| s2 == sal) && model.last().map(|(_, l)| sal > l).unwrap_or(false) {
+                saw_big_tie_add = true;
+            }
+            model.push((*name, *sal));
+        } else {
+            match kb.remove_rule(&rname) {
+                Ok(true) => {}
+                other => return Verdict::fail("many:remove-result", format!("op {}: remove_rule({}) of a stored rule returned {:?}", i, rname, other.map_err(|e| e.to_string()))),
+            }
+            model.retain(|(nm, _)| nm != name);
+        }
+        let mut want = model.clone();
+        want.sort_by(|a, b| b.1.cmp(&a.1)); // stable
+        let want_names: Vec<String> = want.iter().map(|(nm, _)| format!("m{}", nm)).collect();
+        let got: Vec<String> = kb.get_rules().iter().map(|r| r.name.clone()).collect();
+        if got != want_names {
+            let sig = if { let mut a = got.clone(); a.sort(); let mut b = want_names.clone(); b.sort(); a == b } { "many:listing-order" } else { "many:listing-content" };
+            return Verdict::fail(sig, format!("after op {}: get_rules() = {:?}, expected (salience desc, insertion order among equals) {:?}", i, got, want_names));
+        }
+        let by_idx: Vec<String> = kb.get_rules_by_salience().iter().filter_map(|ix| kb.get_rule_by_index(*ix)).map(|r| r.name).collect();
+        if by_idx != want_names {
+            return Verdict::fail("many:salience-order-by-index", format!("after op {}: get_rules_by_salience + get_rule_by_index = {:?}, expected {:?}", i, by_idx, want_names));
+        }
+        if kb.rule_count() != model.len() {
+            return Verdict::fail("many:rule-count", format!("after op {}: rule_count {} but {} stored", i, kb.rule_count(), model.len()));
+        }
+        // spot lookups: the first, the last and the just-touched name
+        for (nm, sal2) in [model.first(), model.last()].into_iter().flatten() {
+            match kb.get_rule(&format!("m{}", nm)) {
+                Some(r) if r.salience == *sal2 && r.name == format!("m{}", nm) => {}
+                other => return Verdict::fail("many:lookup", format!("after op {}: get_rule(m{}) = {:?}", i, nm, other.map(|r| (r.name, r.salience)))),
+            }
+        }
+        if !*add && kb.get_rule(&rname).is_some() {
+            return Verdict::fail("many:lookup-returns-removed-rule", format!("after op {}: get_rule({}) still returns the removed rule", i, rname));
+        }
+    }
+    if saw_big_tie_add {
+        ctx.label("add-above-last-with-ties-in-base>20");
+    }
+    if model.len() > 20 {
+        ctx.nontrivial(hash_of(&ops));
+    }
+    Verdict::Pass
+}
+
 pub fn property() -> Property {
     Property {
         id: "C15",
@@ -1152,6 +1235,7 @@ pub fn property() -> Property {
             Part { name: "exh4", run: run_seq, quick: Budget::Exhaustive { param: 4 }, thorough: Budget::Exhaustive { param: 4 }, min_nontrivial_pct: 0 },
             Part { name: "exh5", run: run_seq, quick: Budget::Skip, thorough: Budget::Exhaustive { param: 5 }, min_nontrivial_pct: 0 },
             Part { name: "random", run: run_seq, quick: Budget::Random { cases: 60_000, bytes: 64 }, thorough: Budget::Random { cases: 1_000_000, bytes: 64 }, min_nontrivial_pct: 15 },
+            Part { name: "many", run: run_many, quick: Budget::Random { cases: 4_000, bytes: 160 }, thorough: Budget::Random { cases: 100_000, bytes: 160 }, min_nontrivial_pct: 30 },
             Part { name: "conc", run: run_conc, quick: Budget::Random { cases: 16_000, bytes: 64 }, thorough: Budget::Random { cases: 50_000, bytes: 64 }, min_nontrivial_pct: 40 },
         ],
         watchdog: true,
